@@ -96,7 +96,12 @@ func c05ReplayJSON(t *testing.T, path string) {
 	}
 }
 
+// c05SaveScenario writes the failing scenario as the replay artifact. It also
+// prints a marker line: the driver's failure summary starts at the first
+// "[rapid] " or "--- FAIL" in the output, and for these plain (non-rapid)
+// tests the message would otherwise be cut off.
 func c05SaveScenario(t *testing.T, cs *c05Case) {
+	fmt.Printf("[rapid] (plain go test, not a rapid property) C05 scenario failed; message follows\n")
 	dir := os.Getenv("VERIF_WORK")
 	if dir == "" {
 		dir = "."
@@ -194,7 +199,8 @@ func TestVerifC05Pinned(t *testing.T) {
 			msg, labels, out, f := c05RunScenario(w, b)
 			if msg != "" {
 				c05SaveScenario(t, cs)
-				t.Fatalf("pinned scenario %s: %s", name, msg)
+				t.Errorf("pinned scenario %s: %s", name, msg)
+				break
 			}
 			if rep == 0 {
 				bl, nt := w.c05Labels(b, &out, f)
